@@ -192,6 +192,39 @@ class Runner:
         return out
 
 
+    def rerun(self, sess):
+        """Replay one recorded session from its recorded inputs (used by --replay)."""
+        root, sk, evs = sess["root"], sess["sk"], sess["ev"]
+        cls = self.pkg.root_class(root)
+        out = []
+        if sk in ("parse", "dropspecial", "dropreq", "enum"):
+            ev, obj = self.ev_structure(evs[0]["j"], cls, root)
+            out.append(ev)
+            if ev["ok"] and sk == "parse":
+                self.round_trip_tail(out, obj, cls, root)
+            elif ev["ok"] and sk == "dropspecial":
+                out.append(self.ev_unstructure(obj, cls, root)[0])
+        elif sk == "ctor":
+            ev, obj = self.ev_construct(evs[0]["o"], root)
+            out.append(ev)
+            if ev["ok"]:
+                self.round_trip_tail(out, obj, cls, root)
+        elif sk in ("intval", "lit"):
+            out.append(self.ev_structure(evs[0]["j"], cls, root)[0])
+            out.append(self.ev_construct(evs[1]["o"], root)[0])
+        elif sk == "unk":
+            ev, obj = self.ev_structure(evs[0]["j"], cls, root)
+            out.append(ev)
+            if ev["ok"]:
+                out.append(self.ev_unstructure(obj, cls, root)[0])
+                if len(evs) >= 3:
+                    ev3, obj3 = self.ev_structure(evs[2]["j"], cls, root)
+                    out.append(ev3)
+                    if ev3["ok"]:
+                        out.append(self.ev_unstructure(obj3, cls, root)[0])
+        return {"sid": 1, "sk": sk, "root": root, "var": sess["var"], "d": sess.get("d", 0), "ev": out}
+
+
 def _has_opaque(n):
     k = n.get("k")
     if k == "opaque":
